@@ -15,12 +15,20 @@ Notation str := (list N) (only parsing).
 Record cc := mkCC {
   is_sp : N -> bool;     (* str.isspace(c): what strip()/lstrip()/rstrip() remove *)
   is_br : N -> bool;     (* c is a line boundary for str.splitlines() *)
-  is_dg : N -> bool      (* regex \d on str patterns: Unicode decimal digit *)
+  is_dg : N -> bool;     (* regex \d on str patterns: Unicode decimal digit *)
+  dg_val : N -> N        (* the value int() gives that digit *)
 }.
 
 (* range tables -> classifier (used for the generated CPython tables) *)
 Definition in_ranges (rs : list (N * N)) (c : N) : bool :=
   existsb (fun r => (fst r <=? c) && (c <=? snd r)) rs.
+
+(* digit ranges -> value: every block of ten consecutive code points counts 0..9 from its start *)
+Definition val_ranges (rs : list (N * N)) (c : N) : N :=
+  match find (fun r => (fst r <=? c) && (c <=? snd r)) rs with
+  | Some r => (c - fst r) mod 10
+  | None => 0
+  end.
 
 Definition str_eqb : str -> str -> bool := list_eqb N.eqb.
 
@@ -108,6 +116,9 @@ Section Classes.
              | l :: ls => (c :: l) :: ls
              end
     end.
+
+  (* int(s) for a string of decimal digits *)
+  Definition int_of (s : str) : N := fold_left (fun acc c => acc * 10 + dg_val C c) s 0.
 
   Definition no_break (s : str) : bool := forallb (fun c => negb (is_br C c)) s.
   Definition all_digits (s : str) : bool := forallb (is_dg C) s.
